@@ -4,7 +4,7 @@ set -u
 PATCH=$1; TIER=$2; shift 2
 cd /repo || exit 2
 if [ -n "$(git status --porcelain)" ]; then echo "/repo not clean"; exit 2; fi
-git apply "$PATCH" || { echo "patch does not apply"; exit 2; }
+git apply "$PATCH" 2>/dev/null || patch -p1 -s -F3 --no-backup-if-mismatch < "$PATCH" || { echo "patch does not apply"; exit 2; }
 trap 'git -C /repo checkout -- . ' EXIT
 cd /verif
 for pid in "$@"; do
